@@ -21,6 +21,6 @@ for id in "$@"; do
   s=$(date +%s)
   VERIF_REPO="$D" VERIF_EVIDENCE_DIR="$D/ev" /verif/check "$id" --tier "$TIER" > "$D/out.$id" 2>&1
   rc=$?
-  echo "== $id exit=$rc ($(( $(date +%s) - s ))s): $(grep -m1 -E 'VIOLATION|HARNESS' "$D/out.$id") | $(grep -m1 detail: "$D/out.$id" | cut -c1-220)"
+  echo "== $id exit=$rc ($(( $(date +%s) - s ))s): $(grep -a -m1 -E "VIOLATION|HARNESS" "$D/out.$id") | $(grep -a -m1 detail: "$D/out.$id" | cut -c1-220)"
 done
 rm -rf "$D"
